@@ -886,6 +886,51 @@ def licm_programs(pname="licm"):
     return _with_types(mk)
 
 
+# ---- lower-affine: affine.for with constant bounds around affine.apply / load / store of the iv ---------
+
+def affine_programs(pname="lower-affine"):
+    def mk(t, vt, lv):
+        vals = [x for x in vt if x not in ("i1", "index")] or ["i32"]
+        # symbolic bounds are rejected by the pass (IndexError): kept at a small quota
+        cb = st.builds(lambda k, c, sym: sym if k == 0 else c, st.integers(0, 11), st.integers(-7, 13).map(_c),
+                       progen._bound(True))
+        leaf = st.one_of(st.builds(lambda i: ["d", i], st.integers(0, 1)), st.builds(lambda i: ["s", i], st.integers(0, 1)),
+                         st.builds(lambda c: ["c", c], st.integers(-9, 9)))
+        expr = st.recursive(leaf, lambda ch: st.one_of(
+            st.builds(lambda a, b: ["+", a, b], ch, ch),
+            st.builds(lambda a, c: ["*", a, c], ch, st.integers(-4, 4)),
+            st.builds(lambda k, a, c: [k, a, c], st.sampled_from(["mod", "floordiv", "ceildiv"]), ch,
+                      st.integers(0, 7))), max_leaves=4)
+
+        def with_mem(mt):
+            ty, n = mt
+            near = st.integers(0, 2)        # the induction variable / the latest index values
+            apply_ = st.builds(lambda e, a: [{"op": "affine_apply", "e": e, "args": a},
+                                             {"op": "print", "k": 1, "args": [["index", 0]]}],
+                               expr, st.lists(near, max_size=4))
+            load = st.builds(lambda i, k, c: [{"op": "affine_load", "t": ty, "n": n, "m": 0, "i": i, "k": k, "c": c},
+                                              {"op": "print", "k": 2, "args": [[ty, 0]]}],
+                             near, st.integers(-3, 3), st.integers(-5, 5))
+            store = st.builds(lambda i, k, c, v: [{"op": "affine_store", "t": ty, "n": n, "m": 0, "i": i, "k": k, "c": c,
+                                                   "v": v}], near, st.integers(-3, 3), st.integers(-5, 5), _REF)
+            piece = st.one_of(apply_, load, store, st.lists(lv[0], max_size=2))
+            lbody = st.lists(piece, min_size=1, max_size=4).map(lambda xs: [s for x in xs for s in x])
+
+            def loop(body):
+                return st.builds(lambda lb, ub, sp, it, bd, y: {"op": "affine_for", "lb": lb, "ub": ub, "step": sp,
+                                                                "iters": it, "body": bd, "y": y},
+                                 cb, cb, st.integers(0, 3), _iters(vt, 1), body, st.lists(_REF, max_size=1))
+            inner = loop(lbody)
+            outer = loop(_cat(lbody, st.lists(inner, min_size=1, max_size=1)))
+            one = st.one_of(inner, inner, outer)
+            pre = st.integers(0, 20).map(lambda v: [{"op": "alloc", "t": ty, "n": n, "v": v}])
+            post = st.integers(0, 3).map(lambda k: [{"op": "load", "t": ty, "n": n, "m": 0, "i": _c(k)}])
+            body = _cat(st.lists(lv[0], max_size=2), pre, st.lists(one, min_size=1, max_size=2), lbody, post)
+            return _func_recipes(body, vt + ["index"], pname)
+        return st.tuples(st.sampled_from(vals), st.sampled_from([1, 2, 4])).flatmap(with_mem)
+    return _with_types(mk)
+
+
 # ---- control-flow-hoist: branches guarding a division, pure and effectful contents --------------------
 
 def hoist_programs(pname="control-flow-hoist"):
@@ -987,7 +1032,8 @@ def campaigns():
     out.append(("cf:unroll_shapes", unroll_programs("convert-scf-to-cf"), 1))
     out.append(("cf:licm_shapes", licm_programs("convert-scf-to-cf"), 1))
     out.append(("affine:generic", _generic("lower-affine", affine=True, control=["scf_if", "scf_for"],
-                                           memref_args=True, size=9), 4))
+                                           memref_args=True, size=9), 2))
+    out.append(("affine:shapes", affine_programs(), 3))
     out.append(("fold:shapes", fold_programs(), 4))
     out.append(("flatten:shapes", flatten_programs(), 4))
     out.append(("unroll:shapes", unroll_programs(), 3))
